@@ -106,13 +106,20 @@ theorem strict_path_on_empty (env : Env) (e : E) (h : StrictStep e) : eval env e
   | neg e _ ih => simp [eval, ih, Res.bind, negColl]
   | seq a b _ _ iha ihb => simp [eval, iha, ihb, Res.bind]
 
+theorem arithEv_empty_left (op : ArithOp) (rv : List Val) : arithEv op [] rv = .ok [] := by
+  unfold arithEv; split <;> simp_all [arithColl]
+
+/-- the same on the right: also a Date / DateTime / Time on the left is not shifted by nothing -/
+theorem arithEv_empty_right (op : ArithOp) (lv : List Val) : arithEv op lv [] = .ok [] := by
+  unfold arithEv; split <;> simp_all [arithColl]
+
 /-- operators on whole expressions: an operand expression that evaluates to empty makes the result
     empty, whatever the other operand evaluates to (it must only evaluate) -/
 theorem expr_arith_empty (env : Env) (op : ArithOp) (l r : E) (input rv : List Val)
     (hl : eval env l input = .ok []) (hr : eval env r input = .ok rv) :
     eval env (.arith op l r) input = .ok [] ∧ eval env (.cmp .lt l r) input = .ok [] ∧
     eval env (.eq false l r) input = .ok [] := by
-  simp [eval, hl, hr, Res.bind, arithColl, cmpExpr, cmpCore, eqExpr, mapRes, bools]
+  simp [eval, hl, hr, Res.bind, arithEv_empty_left, cmpExpr, cmpCore, eqExpr, mapRes, bools]
 
 /-- non-vacuity: a five-step path with arbitrary arguments is strict -/
 example (p q : E) : StrictStep (.seq (.seq (.seq .this (.fn "where" (.argCons p .argNil))) (.fn "first" .argNil))
